@@ -221,6 +221,43 @@ func (r *Result) writeEvidence(matched []string, unlisted int) {
 	}
 }
 
+// Hang reports a request that does not return: the check cannot continue (the goroutine cannot be
+// stopped), so the violation is printed, a partial evidence file is written and the process ends.
+func Hang(property, tier, key, what string, replay interface{}) {
+	if want := os.Getenv("VERIF_REPLAY_KEY"); want != "" {
+		fmt.Printf("REPLAY property=%s key=%s reproduced=%v (the re-run ended in: %s)\n", property, want, want == key, key)
+		if want == key {
+			os.Exit(1)
+		}
+		os.Exit(0)
+	}
+	for _, f := range loadFindings() {
+		if f.Property == property && f.Status == "known" && f.Key == key {
+			fmt.Printf("KNOWN-FINDING: property=%s %s [key=%s]\n", property, f.What, key)
+			fmt.Printf("%s %s: ended early by a request that does not return (known finding); exhaustive=false\n", property, tier)
+			os.Exit(0)
+		}
+	}
+	h := sha1.Sum([]byte(key))
+	dir := filepath.Join(Root, "replays")
+	os.MkdirAll(dir, 0o755)
+	path := filepath.Join(dir, fmt.Sprintf("%s-%s.json", property, hex.EncodeToString(h[:6])))
+	doc := map[string]interface{}{"property": property, "key": key, "what": what, "replay": replay, "occurrences": 1, "tier": tier}
+	b, _ := json.MarshalIndent(doc, "", " ")
+	os.WriteFile(path, b, 0o644)
+	fmt.Printf("VIOLATION property=%s replay=%s\n  key=%s\n  what=%s\n", property, path, key, what)
+	seed, _ := strconv.Atoi(os.Getenv("VERIF_SEED"))
+	ev := map[string]interface{}{"property_id": property, "tier": tier, "seed": seed, "level": "exploration", "wall_s": 0.0, "violations": 1,
+		"assumptions": []string{},
+		"coverage": map[string]interface{}{"evaluations": 1, "distinct_nontrivial": 1, "exhaustive": false,
+			"rule": "the check was ended by its watchdog: one request did not return", "samples": []interface{}{replay}}}
+	eb, _ := json.MarshalIndent(ev, "", " ")
+	os.MkdirAll(filepath.Join(Root, "evidence"), 0o755)
+	os.WriteFile(filepath.Join(Root, "evidence", property+".json"), eb, 0o644)
+	fmt.Printf("%s %s: ended by the watchdog, exhaustive=false violations=1\n", property, tier)
+	os.Exit(1)
+}
+
 // NormSite strips closure suffixes so that keys survive small refactorings.
 func NormSite(s string) string {
 	for {
